@@ -64,3 +64,32 @@ def break_program(rng, text):
     if c == 5:
         return text[:b] + " @ " + text[b:]
     return text[:a] + "(" + text[a:]
+
+
+# ----------------------------------------------------------------------------- blanks wherever the grammar allows them
+import re as _re
+# the terminals of minimal.pest as the grammar spells them (the multi-character literals are single terminals: no blank inside
+# `Left(`, `Either<`, `fold::<`, `>::into`, `list![`, `assert!`, `witness::NAME`, `jet::name`, literals and names)
+_TERMINAL = _re.compile(r"""
+    (?:witness|param|jet)::[A-Za-z0-9_]+ | (?:unwrap_left|unwrap_right|is_none|fold|for_while)::< | >::into | list!\[ | (?:assert|panic|dbg)!
+  | (?:Left|Right|Some)\( | (?:Either|Option|List)< | -> | => | 0x[0-9A-Fa-f_]+ | 0b[01_]+ | [A-Za-z_][A-Za-z0-9_]* | [0-9][0-9_]* | \S
+""", _re.X)
+
+
+def respace(rng, text, rate=0.6, comments=False):
+    """the same terminals with blanks (and optionally comments) between ANY two of them — inside `::< .. >`, around `,` `:` `;`
+    `(` `)`, between a call name and its argument list ...; only for comment-free texts"""
+    toks = _TERMINAL.findall(text)
+    out = []
+    for i, t in enumerate(toks):
+        out.append(t)
+        if i + 1 == len(toks):
+            break
+        nxt = toks[i + 1]
+        need = (t[-1].isalnum() or t[-1] == "_") and (nxt[0].isalnum() or nxt[0] == "_")
+        if need or rng.random() < rate:
+            w = rng.choice([" ", " ", "\n", "\t", "  ", "\n  "])
+            if comments and rng.random() < 0.2:
+                w += rng.choice(COMMENTS) + " "
+            out.append(w)
+    return "".join(out)
